@@ -15,5 +15,7 @@ import (
 	_ "verif/harness/props/c16"
 	_ "verif/harness/props/c17"
 	_ "verif/harness/props/c18"
+	_ "verif/harness/props/c19"
 	_ "verif/harness/props/c20"
+	_ "verif/harness/props/chains"
 )
